@@ -1,5 +1,7 @@
 import H2V.Model.HpackDec
 import H2V.Spec.Hpack
+import H2V.Spec.HpackSync
+import H2V.Model.HpackEnc
 /-
   Line-protocol driver, pure-layer commands (Huffman, HPACK integers, HPACK decoder).
   One output line per input line.  Unknown or malformed commands answer `bad-op` (never defaulted).
@@ -12,9 +14,22 @@ structure DState where
   decTail : Bytes := []
   decFirst : Bool := true
   spec : Spec.Hpack.St := Spec.Hpack.St.init 4096
+  enc : Hpack.Encoder := Hpack.Encoder.new 4096
+  mon : Spec.HpackSync.Mon := Spec.HpackSync.Mon.init 4096
 
 def showFields (fs : List Hpack.Header) : String :=
   if fs.isEmpty then "-" else ",".intercalate (fs.map fun (n, v) => Hex.render n ++ ":" ++ Hex.render v)
+
+/-- `hexname:hexvalue:flags` (flags: `-`, `s`, `n`, `sn`), comma separated; `-` = empty list -/
+def parseFields (s : String) : Option (List Hpack.Field) :=
+  if s == "-" then some []
+  else (s.splitOn ",").mapM fun w =>
+    match w.splitOn ":" with
+    | [n, v, fl] =>
+      match Hex.toBytes? n, Hex.toBytes? v with
+      | some n, some v => some { h := (n, v), sensitive := fl.contains 's', nameless := fl.contains 'n' }
+      | _, _ => none
+    | _ => none
 
 def resName : Except Hpack.DErr Unit → String
   | .ok _ => "ok"
@@ -62,6 +77,41 @@ def handleCore (st : DState) (ws : List String) : Option (DState × String) :=
       some ({ st with dec := o.dec, decTail := o.tail, decFirst := false },
         s!"res={resName o.result} tail={o.tail.length} size={o.dec.table.size} max={o.dec.table.maxSize} n={o.dec.table.entries.length} fields={showFields o.fields}")
     | none => none
+  | ["enc_new", n, _cap] =>
+    match n.toNat? with
+    | some n => some ({ st with enc := Hpack.Encoder.new n }, "ok")
+    | none => none
+  | ["enc_max", n] =>
+    match n.toNat? with
+    | some n => some ({ st with enc := st.enc.updateMaxSize n }, "ok")
+    | none => none
+  | ["enc_block", f] =>
+    match parseFields f with
+    | some fs =>
+      match fs.findSome? (fun fl => match Hpack.mkHeader fl.h.1 fl.h.2 with | .ok _ => none | .error e => some e) with
+      | some e => some (st, "err " ++ e.name)
+      | none =>
+        match st.enc.encode fs with
+        | some (e', bytes) =>
+          some ({ st with enc := e' }, s!"{Hex.render bytes} size={e'.size} max={e'.maxSize} n={e'.entries.length}")
+        | none => some (st, "panic")
+    | none => none
+  -- monitors: the reference semantics evaluated on what the REAL code emitted
+  | ["mon_enc_new", n] =>
+    match n.toNat? with
+    | some n => some ({ st with mon := Spec.HpackSync.Mon.init n }, "ok")
+    | none => none
+  | ["mon_enc_max", n] =>
+    match n.toNat? with
+    | some n => some ({ st with mon := st.mon.setAllowed n }, "ok")
+    | none => none
+  | ["mon_enc_block", f, h] =>
+    match parseFields f, Hex.toBytes? h with
+    | some fs, some bytes =>
+      match st.mon.block (fs.map (·.h)) bytes with
+      | .ok m' => some ({ st with mon := m' }, "ok")
+      | .error why => some (st, "FAIL " ++ why)
+    | _, _ => none
   -- reference (RFC) semantics: answered by the spec here, by the real code in the harness
   | ["spec_huff_dec", h] =>
     match Hex.toBytes? h with
